@@ -49,6 +49,10 @@ def fam_hostile(seed, n):
 def fam_mtu(seed, n):
     return [scen.mtu_script(seed, i) for i in range(n)]
 
+@family("probe_loss")
+def fam_probe_loss(seed, n):
+    return [scen.probe_loss(seed, i) for i in range(n)]
+
 @family("kf")
 def fam_kf(seed, n):
     return [scen.kf_d4(seed), scen.kf_d6(seed), scen.kf_d1b(seed), scen.kf_d14(seed), scen.kf_d6b(seed), scen.kf_d5(seed)]
@@ -139,8 +143,8 @@ std_check("C02", [("xfer_clean", 30, 400), ("xfer", 40, 800)] + KF,
           ["C02.IdleWrite", "C02.IdleShutdown", "C02.NoStall", "C02.Silence", "C02.CompletesOk"],
           assumptions=["liveness of the code is observed as completion without failure in virtual time over the explored schedules",
                        "application pauses and network delays stay below the configured inactivity timeout; the SYN itself is not dropped"])
-std_check("C03", [("close", 120, 2000), ("xfer", 20, 300)] + KF,
-          ["C03.FlushHonest", "C03.EofOnlyAfterFin", "C03.SuccessMeansDelivered", "C03.AbortSurfaces"])
+std_check("C03", [("close", 120, 2000), ("xfer", 20, 300), ("peer_recv", 32, 500)] + KF,
+          ["C03.FlushHonest", "C03.EofOnlyAfterFin", "C03.SuccessMeansDelivered", "C03.AbortSurfaces", "C03.FinInSequence"])
 std_check("C04", [("peer_recv", 100, 1500), ("xfer", 30, 400)] + KF,
           ["C04.AckExact", "C04.AckMonotone", "C04.SackExact", "C04.WindowHonest", "C04.WithinBuffer", "C04.ConsumeExact",
            "C04.OutOfOrderIsAhead", "C04.DuplicateIsOld", "C04.AlreadyPresentIsHeld"], model_spec=DATA_MODEL)
